@@ -466,7 +466,14 @@ impl TTS {
         fn compute_bookmark_element<'c, 's:'c, 'm, 'r>(value: &TTSCommandValue, tag_and_attr: &str, rules_with_context: &'r mut SpeechRulesWithContext<'c, 's, 'm>, mathml: Element<'c>) -> Result<String> {
             match value {
                 TTSCommandValue::XPath(xpath) => {
-                    let id = xpath.replace::<String>(rules_with_context, mathml)?;
+                    // the id is used as it is -- xpath.replace() is for text to be spoken (a one letter id would be turned into the speech for that letter)
+                    let value = xpath.evaluate(rules_with_context.get_context(), mathml)
+                        .chain_err(|| format!("in 'bookmark': can't evaluate xpath \"{}\"", &xpath.to_string()) )?;
+                    let id = match value {
+                        Value::String(s) => s,
+                        Value::Nodeset(nodes) if nodes.size() == 1 => nodes.iter().next().unwrap().string_value(),
+                        _ => bail!("in 'bookmark': value returned from xpath '{}' does not evaluate to a string",  &xpath.to_string()),
+                    };
                     return Ok( format!("<{}='{}'/>", tag_and_attr, id) );
                 },
                 _ => bail!("Implementation error: found bookmark value that did not evaluate to a string"),
